@@ -328,7 +328,8 @@ def AE_6(dul: "DULServiceProvider") -> str:
 
     # If A-ASSOCIATE-RQ not acceptable by service dul provider
     #   Then set reason and send -RJ PDU back to peer
-    if recv_pdu.protocol_version != 0x0001:
+    # PS3.8 Table 9-11: only bit 0 of the protocol version shall be tested
+    if not recv_pdu.protocol_version & 0x0001:
         LOGGER.error(
             "A-ASSOCIATE-RQ: Unsupported protocol version "
             f"'0x{recv_pdu.protocol_version:04X}'"
